@@ -1,6 +1,6 @@
 (* Entry points for the spec parsers / serialisers. *)
-From Coq Require Import ZArith NArith List Bool String.
-From Valida Require Import Py Lang Defs Cond Dsl Check Path Cast Str SpecDefs RuleDefs Rule Spec SpecIO Descr Inst.
+From Coq Require Import ZArith NArith List Bool String Ascii.
+From Valida Require Import Py Lang Defs Cond Dsl Check Path Cast Str SpecDefs RuleDefs Rule Spec SpecIO Descr Eq Inst.
 From Valida.Gen Require Import SpecGen.
 Import ListNotations.
 Local Open Scope string_scope.
@@ -57,3 +57,20 @@ Definition run_rule_from_spec (spec : pyval) : res pyval :=
 (* Rule(...).to_json_like() *)
 Definition run_rule_to_json (rt : ruleterm) (cast_given : bool) : res pyval :=
   let* r := mk_rule T rt in rule_to_json T X (r_path r) (r_cond r) (r_cast r) cast_given.
+
+(* DataPath.from_str *)
+From Valida Require Import FromStr.
+Definition run_from_str (floats : list (string * option pyval)) (s : string) (delim : ascii) : res pyval :=
+  let fo := fun tok => match assoc_str tok floats with Some r => r | None => None end in
+  describe_pathterm T (path_from_str fo s delim).
+
+(* json.loads(json.dumps(x)) is the identity on x *)
+Definition run_json_pure (v : pyval) : res pyval := Ok (VBool (json_pure v)).
+
+(* round trips *)
+Definition run_cond_roundtrip (t : dslc arg1) : res pyval :=
+  let* c := build1 T t in
+  let* j := cond1_to_json T X c in
+  let* (_, c2) := cond1_from_spec T X j in
+  let* j2 := cond1_to_json T X c2 in
+  Ok (VTuple [VBool (json_pure j); VBool (cond1_eqb T c2 c); VBool (py_eq j2 j)]).
